@@ -20,6 +20,7 @@ package results
 import (
 	"bufio"
 	"fmt"
+	"math"
 	"os"
 	"sort"
 )
@@ -90,6 +91,9 @@ func readFileLines(filename string, startLine, endLine int) (string, error) {
 	defer f.Close()
 
 	scanner := bufio.NewScanner(f)
+	// The default Scanner gives up on lines longer than 64 KiB, which would
+	// end the loop early and report the lines after it as missing.
+	scanner.Buffer(make([]byte, 0, bufio.MaxScanTokenSize), math.MaxInt32)
 	lines := ""
 	i := 0
 	for scanner.Scan() {
